@@ -3,6 +3,8 @@ package basestore
 import (
 	"context"
 
+	ipfslog "berty.tech/go-ipfs-log"
+
 	"berty.tech/go-orbit-db/iface"
 	"berty.tech/go-orbit-db/internal/vstub"
 	"berty.tech/go-orbit-db/internal/vstubodb"
@@ -46,7 +48,7 @@ func VerifC09Isolation() {
 		return
 	}
 	// a remote writer of database A (another process)
-	remote, _ := openWithCid("remote", 1, vstub.NewBlocks(nil))
+	remote, remoteEnv := openWithCid("remote", 1, vstub.NewBlocks(nil))
 	if remote == nil {
 		return
 	}
@@ -75,7 +77,17 @@ func VerifC09Isolation() {
 	}
 	ctx := context.Background()
 	for s := 0; s < steps; s++ {
-		switch vstub.NdChoice("action", 3) {
+		switch vstub.NdChoice("action", 4) {
+		case 3:
+			// A is handed (announcement / manual sync) a valid entry that was written for
+			// database B by a writer both accept: A drops it, and B - which received
+			// nothing - does not react in any way
+			_, fe := appendAs(remoteEnv, nil, b.id, remoteEnv.Identity, vstub.NdBytes("val", 1))
+			if fe == nil {
+				return
+			}
+			_ = a.Sync(ctx, []ipfslog.Entry{fe.Copy()})
+			vstub.Cover("foreign-head-on-a")
 		case 0:
 			if _, err := a.AddOperation(ctx, operation.NewOperation(nil, "ADD", vstub.NdBytes("val", 1)), nil); err != nil {
 				vstub.Fail("C09 AddOperation failed")
